@@ -119,6 +119,9 @@ pub fn gen_c11(rng: &mut Rng, tier: &str) -> MultiCase {
 }
 
 fn merge_stats(st: &mut RunStats, case: &PipeCase, out: &WriteOutcome) {
+    if case.mt_threads > 0 {
+        st.uncontrolled = true;
+    }
     if case.mt_threads == 0 {
         st.steps += out.steps;
         st.nonzero_decisions += out.nonzero_decisions;
@@ -135,7 +138,12 @@ fn merge_stats(st: &mut RunStats, case: &PipeCase, out: &WriteOutcome) {
     f("F2_eintr_write", out.counts.eintr_writes);
     f("F5_failed_op", out.counts.failed_ops);
     for (k, v) in &out.probes {
-        *st.probes.entry(k.to_string()).or_insert(0) += *v;
+        if case.mt_threads == 0 {
+            *st.probes.entry(k.to_string()).or_insert(0) += *v;
+        } else {
+            // real threads: which staging state a redirect finds is not schedule-controlled
+            *st.counters.entry(format!("uncontrolled_probe:{}", k)).or_insert(0) += *v;
+        }
     }
     let src = match &case.source {
         Source::SerialIter => "source:serial_iter".to_string(),
